@@ -1,7 +1,7 @@
 import ArgoVerif.Proofs.PopWaitC2
 import ArgoVerif.Proofs.PopWaitC3
 import ArgoVerif.Proofs.PopWaitC3b
-import ArgoVerif.Proofs.PopWaitC4
+import ArgoVerif.Proofs.PopWaitC4c
 import ArgoVerif.Proofs.PopWaitC4b
 import ArgoVerif.Proofs.PopWaitC5
 import ArgoVerif.Proofs.PopWaitC5b
